@@ -209,6 +209,23 @@ func cdxTables(c *Ctx) {
 			okv := len(w) >= 2 && w[1].k == vNil && sameValue(w[0], constVal(lc))
 			c.check(okv, R, construct, c.fpos(phTo), fmt.Sprintf("%s → %s → %v", lc.Name(), t[0], w), fmt.Sprintf("phase %s reads as %s which is written back as %v", constVal(lc), t[0], w))
 		}
+		// a label outside the library's constants (a named, untyped lifecycle) must stay untyped: a type
+		// invented by the reader is written back as a different phase on the second pass
+		{
+			probe := cstr("X-Unlisted Phase")
+			construct := fmt.Sprintf("%s∘%s#unlisted-label", objName(phTo), objName(phFrom))
+			t := c.apply(phFrom, probe)
+			switch {
+			case len(t) == 0 || t[0].k == vUnknown:
+				c.undecided(R, construct, c.fpos(phFrom), "reader phase table not foldable on an unlisted label")
+			case t[0].k == vNil:
+				c.ok(R, construct, c.fpos(phFrom), "an unlisted phase label reads as an untyped lifecycle")
+			default:
+				w := c.apply(phTo, rec(map[string]value{"Type": t[0], "Name": probe, "Description": cstr("")}))
+				okv := len(w) >= 2 && w[1].k == vNil && sameValue(w[0], probe)
+				c.check(okv, R, construct, c.fpos(phFrom), "unlisted label survives", fmt.Sprintf("a phase label the library does not list reads as type %s, which is written back as %v: a named, untyped lifecycle comes back typed and changes again on the second pass", t[0], w))
+			}
+		}
 		c.check(n >= 7, R, "domain:LifecyclePhase/CDX", c.fpos(phTo), fmt.Sprintf("%d phases", n), fmt.Sprintf("only %d document types map to a lifecycle phase; 7 confirmed", n))
 	}
 }
